@@ -22,6 +22,9 @@ type Opts struct {
 	// OddPathParams: scalar request fields that become path parameters may get a name
 	// that does not survive camel -> snake -> camel (userID, snake_name, aB); C16
 	OddPathParams bool
+	// UndocumentedRules: rules the schema proto defines but the README does not
+	// mention (integer multipleOf, object minProperties / maxProperties); C04
+	UndocumentedRules bool
 	Noise       bool
 	// Mask disables features that are excluded by construction because of an open
 	// finding; the key names are those used in Classes.
@@ -381,6 +384,10 @@ func (g *gen) rules(ty *Type) {
 			r.MaxLength = ptr(uint64(rapid.IntRange(3, 9).Draw(t, "maxlenv")))
 		}
 	case "integer":
+		if g.o.UndocumentedRules && rapid.IntRange(0, 4).Draw(t, "multipleof") == 0 {
+			r.MultipleOf = ptr(int64(rapid.IntRange(2, 9).Draw(t, "multipleofv")))
+			g.cls("rules:integer:multipleOf")
+		}
 		lo := int64(rapid.IntRange(0, 50).Draw(t, "lo"))
 		hi := lo + int64(rapid.IntRange(2, 50).Draw(t, "span"))
 		if rapid.IntRange(0, 3).Draw(t, "bigbounds") == 0 {
@@ -504,6 +511,13 @@ func (g *gen) fieldType(depth int, objectOnly bool, allowContainer bool, hint st
 					continue
 				}
 				ty.Ref = g.refTo(ti)
+				if g.o.UndocumentedRules && rapid.IntRange(0, 5).Draw(t, "objectrules") == 0 {
+					ty.Rules = &Rules{MinProps: ptr(uint64(1))}
+					if rapid.Bool().Draw(t, "maxprops") {
+						ty.Rules.MaxProps = ptr(uint64(rapid.IntRange(1, 4).Draw(t, "maxpropsv")))
+					}
+					g.cls("rules:object")
+				}
 			}
 			return ty
 		case k <= 7:
